@@ -18,10 +18,18 @@ theorem isOther_not_modelled (fc : UInt8) (h : (FunctionCode.new fc).isOther = t
     fc ∉ modelledReqCodes := by
   revert h; revert fc; apply byte_cases; decide +kernel
 
+/-- a function code outside the ten kinds the response decoder models is not one of the ten modelled bytes -/
+theorem isOtherRsp_not_modelled (fc : UInt8) (h : (FunctionCode.new fc).isOtherRsp = true) :
+    fc ∉ modelledRspCodes := by
+  revert h; revert fc; apply byte_cases; decide +kernel
+
+theorem isOther_of_isOtherRsp {fc : FunctionCode} (h : fc.isOtherRsp = true) : fc.isOther = true := by
+  cases fc <;> first | exact h | cases h | rfl
+
 /-- the kinds the response decoder returns: a frameable kind, write-single-coil, or a custom value -/
 theorem _root_.Modbus.Response.Decoded.kinds {v : Response} (hd : Response.Decoded v) :
     v.Frameable ∨ (∃ a, v = .writeSingleCoil a) ∨
-      (∃ fc d, v = .custom (FunctionCode.new fc) d ∧ (FunctionCode.new fc).isOther = true) := by
+      (∃ fc d, v = .custom (FunctionCode.new fc) d ∧ (FunctionCode.new fc).isOtherRsp = true) := by
   cases hd with
   | writeSingleCoil a => exact .inr (.inl ⟨a, rfl⟩)
   | custom fc d ho => exact .inr (.inr ⟨fc, d, rfl, ho⟩)
@@ -82,6 +90,9 @@ theorem Response.decode_custom_image {b : Bytes} {c : FunctionCode} {d : Bytes}
   case writeMultipleCoils | writeSingleRegister | writeMultipleRegisters =>
     rw [read16_eq_ok (b := b) (i := 1) (by omega), read16_eq_ok (b := b) (i := 3) (by omega)] at h
     simp only [Res.bind'_ok, Res.ok.injEq, reduceCtorEq] at h
+  case readExceptionStatus =>
+    rw [idx_eq_ok (b := b) (i := 1) (by omega)] at h
+    simp only [Res.bind'_ok, Res.ok.injEq, reduceCtorEq] at h
   all_goals
     simp only [sliceFrom, if_pos (show 1 ≤ b.length by omega), Res.bind'_ok, Res.ok.injEq,
       Response.custom.injEq] at h
@@ -121,7 +132,7 @@ theorem Request.decode_custom_image {b : Bytes} {c : FunctionCode} {d : Bytes}
     rw [read16_eq_ok (b := b) (i := 1) (by omega), read16_eq_ok (b := b) (i := 3) (by omega),
       idx_eq_ok (b := b) (i := 5) (by omega)] at h
     simp only [Res.bind'_ok] at h
-    by_cases hb : b.length < 6 + b[5].toNat
+    by_cases hb : b.length < 6 + b[5].toNat ∨ packedCoilsLen (rd16 b[3] b[3 + 1]).toNat > 255
     · rw [if_pos hb] at h; cases h
     rw [if_neg hb] at h
     simp only [sliceFrom, if_pos (show 6 ≤ b.length by omega), Res.bind'_ok, Res.ok.injEq, reduceCtorEq] at h
